@@ -9,7 +9,7 @@ from ..report import Report
 from .common import call, call_func, driver_interp, new_obj
 
 KEYS = ["a", "A", "b"]
-VALUES = ["v1", "v2"]
+VALUES = ["v1", ""]     # a falsy value too: truthiness of a value must not matter
 
 
 def ref_apply(state, op):
